@@ -975,7 +975,7 @@ func c16(x *mon.Ctx) {
 
 	// ---------------- first use: fresh processes whose very first verifications are concurrent
 	if self, err := os.Executable(); err == nil {
-		for k := 0; k < x.Pick(4, 16); k++ {
+		for k := 0; k < x.Pick(10, 24); k++ {
 			cmd := exec.Command(self, "-firstuse")
 			cmd.Env = os.Environ() // GORACE log_path is inherited: the child's reports land next to ours
 			outb, _ := cmd.CombinedOutput()
